@@ -71,8 +71,12 @@ def run(chk, tier, seed):
     finally:
         shutil.rmtree(tmpb, ignore_errors=True)
     # a root (or a literal prefix) that does not exist has no entries at all - not even the fake `.` and `..`
-    for p, fl in (('./.', G.G), ('.*', G.G | G.SD), ('.', G.G), ('*', G.G), ('**', G.G | G.D), ('*/.', G.G), ('..', G.G), ('.*/', G.SD)):
-        for kw, where in ((dict(root_dir='/nonexistent-root-for-c12'), 'a root_dir that does not exist'), (dict(root_dir=b'/nonexistent-root-for-c12'), 'a bytes root_dir that does not exist')):
+    import tempfile as _tf
+    notdir = _tf.NamedTemporaryFile(prefix='wcv-notadir-')
+    for p, fl in (('./.', G.G), ('.*', G.G | G.SD), ('.', G.G), ('*', G.G), ('**', G.G | G.D), ('*/.', G.G), ('..', G.G), ('.*/', G.SD),
+                  ('./', G.G), ('../', G.G), ('./**', G.G), ('../**', G.G), ('./', G.K), ('.//', 0), ('./*', G.G), ('../.', 0), ('.|..', G.S), ('{./,../}', G.B)):
+        for kw, where in ((dict(root_dir='/nonexistent-root-for-c12'), 'a root_dir that does not exist'), (dict(root_dir=b'/nonexistent-root-for-c12'), 'a bytes root_dir that does not exist'),
+                          (dict(root_dir=notdir.name), 'a root_dir that is a regular file')):
             pt = p.encode() if isinstance(kw['root_dir'], bytes) else p
             got = G.glob(pt, flags=fl | G.U, **kw)
             chk.case(key=('nonexistent-root', p, fl, where))
